@@ -1343,6 +1343,12 @@ func (f *frame) builtin(name string, args []Value, c *ssa.CallCommon, pos token.
 			mo.vals = append(append([]Value{}, mo.vals[:i]...), mo.vals[i+1:]...)
 		}
 		return nil
+	case "ssa:wrapnilchk":
+		p := m.force(args[0]).(Ptr)
+		if p.obj == nil {
+			panic(goPanic{msg: "value method called using nil pointer", pos: m.pos(pos)})
+		}
+		return p
 	case "print", "println":
 		return nil
 	case "min", "max":
